@@ -261,6 +261,26 @@ class Index:
                         top.add(t.id)
         return frozenset(x for x in top if count.get(x) == 1)
 
+    def accessor_names(self):
+        """names of the generated parse-tree accessors (rule names and token names of the shipped parser) plus the generic tree
+        getters: calling one of them without arguments on a context object is a pure read"""
+        if "_accessors" not in self.__dict__:
+            import re
+            names = {"getText", "getChildren", "getChildCount"}
+            pth = os.path.join(REPO, PKG, "blackbirdParser.py")
+            try:
+                src = open(pth, encoding="utf-8").read()
+                m = re.search(r"ruleNames\s*=\s*\[(.*?)\]", src, re.S)
+                if m:
+                    names |= set(re.findall(r"\"(\w+)\"", m.group(1)))
+                m = re.search(r"symbolicNames\s*=\s*\[(.*?)\]", src, re.S)
+                if m:
+                    names |= {x for x in re.findall(r"\"(\w+)\"", m.group(1)) if x.isupper()}
+            except OSError:
+                pass
+            self._accessors = frozenset(names)
+        return self._accessors
+
     def const_env(self, mod):
         """(name -> value node, names) of the module-level constants visible in `mod` that are bound exactly once where they are defined
         and never rebound in `mod` itself (own definitions and names imported from other modules of the package)"""
